@@ -80,6 +80,10 @@ class ImageProvider(_Pipeline, Generic[_R]):
     def __rtruediv__(self, other) -> ImageProvider:
         return self.__class__(lambda scale: other / self(scale))
 
+    def __rsub__(self, other) -> ImageProvider:
+        # NOTE: "-image + other" fails for boolean images
+        return self.__class__(lambda scale: other - self(scale))
+
     def __eq__(self, other) -> ImageProvider:
         if isinstance(other, ImageProvider):
             return self.__class__(lambda scale: self(scale) == other(scale)).with_name(
@@ -223,6 +227,10 @@ class ImageConverter(_Pipeline):
 
     def __rtruediv__(self, other) -> ImageConverter:
         return self.__class__(lambda x, scale: other / self(x, scale))
+
+    def __rsub__(self, other) -> ImageConverter:
+        # NOTE: "-image + other" fails for boolean images
+        return self.__class__(lambda x, scale: other - self(x, scale))
 
     def __eq__(self, other) -> ImageConverter:
         if isinstance(other, ImageConverter):
